@@ -6,7 +6,7 @@ use tensor_store::{ScalarValue, TensorData, TensorStore, TensorValue};
 use crate::{
     chunker::StreamingHasher,
     error::{BlobError, Result},
-    gc::decrement_chunk_refs,
+    gc::{decrement_chunk_refs, ChunkLock},
     metadata::RepairStats,
     streaming::{get_bytes, get_int, get_pointers, get_string},
 };
@@ -176,8 +176,26 @@ pub fn find_orphaned_chunks(store: &TensorStore) -> Vec<String> {
 /// # Errors
 ///
 /// Returns an error if the artifact is not found or deletion fails.
+#[cfg(test)]
 pub fn delete_artifact(store: &TensorStore, artifact_id: &str) -> Result<()> {
+    delete_artifact_locked(store, artifact_id, &ChunkLock::default())
+}
+
+/// Delete an artifact under the chunk lock of the blob store it belongs to.
+///
+/// # Errors
+///
+/// Returns an error if the artifact is not found or deletion fails.
+pub(crate) fn delete_artifact_locked(
+    store: &TensorStore,
+    artifact_id: &str,
+    chunk_lock: &ChunkLock,
+) -> Result<()> {
     let meta_key = format!("_blob:meta:{artifact_id}");
+    // Reading the metadata, decrementing the references and removing the
+    // metadata is one critical section: of two concurrent deletes of the same
+    // artifact exactly one finds the metadata and decrements.
+    let _guard = chunk_lock.lock();
     let tensor = store
         .get(&meta_key)
         .map_err(|_| BlobError::NotFound(artifact_id.to_string()))?;
